@@ -266,6 +266,11 @@ def run_c03(c, exe, base, scale):
     import vlib
     d = os.path.join(base, 'ref3'); os.makedirs(d, exist_ok=True)
     corpus = make_corpus(d, c.seed * 37 + 11, 40 if scale >= 2 else 10, nested_share=0.0)
+    # dictionary chunks whose dictionary_page_offset is absent (data_page_offset points at the dictionary page, as older writers do)
+    # and dictionary chunks under every codec: the three I/O paths locate the first data page in three different pieces of code
+    corpus += make_corpus(d, c.seed * 37 + 12, 24 if scale >= 2 else 8, nested_share=0.0, features={'dict_offset_present': False, 'dict': True}, check=False)
+    corpus += make_corpus(d, c.seed * 37 + 13, 24 if scale >= 2 else 8, nested_share=0.0, features={'dict': True, 'pages': 3})
+    c.count('reference_files_with_dictionary_offset_absent', 24 if scale >= 2 else 8)
     shards = []
     for i in range(0, len(corpus), 5):
         shards.append(['file', c.seed, scale] + [pq for pq, td, feat in corpus[i:i + 5]])
